@@ -571,6 +571,21 @@ def initialize_state(
 
 
 _UNSET_SELECT: Any = object()
+
+
+def normalize_select(select: Any) -> Any:
+    """A collection of output names in any form (tuple, set, dict keys, generator) means the same as a list.
+
+    Strings (one name, or ``"**"``) and the unset sentinel pass through. Read
+    once, up front, so that validation, input scoping and output filtering
+    all see the same names.
+    """
+    if select is _UNSET_SELECT or isinstance(select, (str, list)):
+        return select
+    try:
+        return list(select)
+    except TypeError:
+        return select
 """Sentinel distinguishing 'user didn't pass select' from explicit '**'."""
 
 
